@@ -211,12 +211,115 @@ def _label_keyed(taint, t):
     return not bad, (bad[0] if bad else None)
 
 
+# values that are deterministic by construction (frozen, with the reason):
+DETERMINISTIC_VALUES = {
+    ("CGKO06.SSE2", "I"),   # SSE-2 stores the identifiers themselves (the property's stated exception)
+    ("DP17.Pi", "HT"),      # [level || bucket] masked with H(F(k2, w) || count): hides a location, carries no identifier; the bucket is chosen at random
+}
+
+def _initial_elements(t, depth=0):
+    """lst[i] for a constant i inside the list's initial display, when the list is only appended to afterwards, is that initial
+    element (what is appended later does not contribute to it)."""
+    if depth > 40 or not isinstance(t, tuple) or not t:
+        return t
+    if t[0] == "sub" and len(t) == 3 and isinstance(t[1], tuple) and t[1] and t[1][0] == "cont" and t[2][0] == "const" and isinstance(t[2][1], int):
+        cont = t[1]
+        init, muts = cont[2], cont[3]
+        if init[0] in ("list", "tuple") and 0 <= t[2][1] < len(init[1]) and all(m[0] in ("append", "extend") for m in muts):
+            return _initial_elements(init[1][t[2][1]], depth + 1)
+    return tuple(_initial_elements(x, depth + 1) if isinstance(x, tuple) else x for x in t)
+
+
+_FRESH_CALLS = ("os.urandom", "urandom", "secrets.token_bytes", "token_bytes", "secrets.randbits", "random.randbytes", "random.getrandbits")
+
+
+def _draws_randomness(e):
+    for c in ast.walk(e):
+        if isinstance(c, ast.Call):
+            d = dotted(c.func) or ""
+            if d in _FRESH_CALLS or d.endswith(".Encrypt") or d.endswith(".KeyGen"):
+                return True
+    return False
+
+
+def _leaves(e):
+    """Names an entry is assembled from directly: through tuples / lists / concatenation / conditional expressions, not through calls."""
+    if isinstance(e, ast.Name):
+        return [e]
+    if isinstance(e, (ast.Tuple, ast.List)):
+        return [x for el in e.elts for x in _leaves(el)]
+    if isinstance(e, ast.BinOp) and isinstance(e.op, ast.Add):
+        return _leaves(e.left) + _leaves(e.right)
+    if isinstance(e, ast.IfExp):
+        return _leaves(e.body) + _leaves(e.orelse)
+    if isinstance(e, ast.Starred):
+        return _leaves(e.value)
+    return []
+
+
+def _check_fresh_per_entry(rule, s, fi):
+    """Every loop / comprehension of `fi` that produces entries (comprehension elements, appended / added / yielded values, values
+    stored under a subscript): a plain name assembled into the entry must not be a value that was drawn at random once, outside
+    the loop - all entries of the loop would then carry the same bytes."""
+    fnode = fi.node
+    assigns = {}
+    for st in ast.walk(fnode):
+        if isinstance(st, ast.Assign):
+            for t in st.targets:
+                for nm in ([t] if isinstance(t, ast.Name) else [x for x in ast.walk(t) if isinstance(x, ast.Name) and isinstance(x.ctx, ast.Store)]):
+                    assigns.setdefault(nm.id, []).append(st)
+        elif isinstance(st, (ast.AugAssign, ast.AnnAssign)) and isinstance(st.target, ast.Name):
+            assigns.setdefault(st.target.id, []).append(st)
+        elif isinstance(st, (ast.For, ast.comprehension)):
+            for nm in ast.walk(st.target):
+                if isinstance(nm, ast.Name):
+                    assigns.setdefault(nm.id, []).append(st)
+    n = 0
+    for loop in ast.walk(fnode):
+        produced = []
+        if isinstance(loop, (ast.ListComp, ast.SetComp, ast.GeneratorExp)):
+            produced = [loop.elt]
+        elif isinstance(loop, ast.DictComp):
+            produced = [loop.key, loop.value]
+        elif isinstance(loop, (ast.For, ast.While)):
+            for x in [y for b in loop.body for y in ast.walk(b)]:
+                if isinstance(x, ast.Call) and isinstance(x.func, ast.Attribute) and x.func.attr in ("append", "add", "appendleft", "insert") and x.args:
+                    produced.append(x.args[-1])
+                elif isinstance(x, ast.Assign) and any(isinstance(t, ast.Subscript) for t in x.targets):
+                    produced.append(x.value)
+                elif isinstance(x, (ast.Yield,)) and x.value is not None:
+                    produced.append(x.value)
+        if not produced:
+            continue
+        n += 1
+        inside = {id(x) for x in ast.walk(loop)}
+        bad = None
+        for pe in produced:
+            for nm in _leaves(pe):
+                defs = assigns.get(nm.id, [])
+                if not defs or any(id(d) in inside for d in defs):
+                    continue
+                rnd = [d for d in defs if isinstance(d, (ast.Assign, ast.AnnAssign)) and d.value is not None and _draws_randomness(d.value)]
+                if rnd and len(rnd) == len(defs):
+                    bad = (nm, rnd[0], pe)
+        desc = {"scheme": s.name, "function": fi.qual, "line": getattr(loop, "lineno", 0)}
+        if bad:
+            nm, d, pe = bad
+            rule.fail_fn(fi, pe, "one random draw shared by the entries of a loop",
+                         "%s.%s: the entries produced at line %d all contain %s, which is drawn once before the loop (%s): they are byte-identical instead of "
+                         "independently random / independently encrypted" % (s.name, fi.name, getattr(loop, "lineno", 0), nm.id, short(d)), witness=desc)
+        else:
+            rule.ok(desc)
+    return n
+
+
 def check(repo):
     r1 = Rule("R4.1", "no unsanitised keyword / identifier / key reaches the index or a token")
     r2 = Rule("R4.2", "labels and addresses are keyed")
     r3 = Rule("R4.3", "AES-CBC draws a fresh IV per encryption and emits it")
     r4 = Rule("R4.4", "keys and fillers come from os.urandom / KeyGen, never from `random`")
-    rules = [r1, r2, r3, r4]
+    r7 = Rule("R4.7", "every stored value carries fresh randomness (a random draw or a randomised encryption), so set-ups do not repeat entries")
+    rules = [r1, r2, r3, r4, r7]
     schemes = discover(repo)
     n_sinks = 0
     for s in schemes:
@@ -260,6 +363,16 @@ def check(repo):
                                     witness=desc)
                         else:
                             r1.ok(desc)
+                        # stored values are randomised: two set-ups of the same (key, database) share no value entry
+                        if role == "value" and term[0] != "const" and (s.name, attr) not in DETERMINISTIC_VALUES:
+                            fresh = any(isinstance(x, tuple) and x and ((x[0] == "call" and x[1] in RANDOM_OK) or (x[0] == "prim" and x[2] in ("Encrypt", "KeyGen")))
+                                        for x in walk(_initial_elements(term)))
+                            if fresh:
+                                r7.ok({"scheme": s.name, "container": attr, "line": line})
+                            else:
+                                r7.fail(enc.module.rel, enc.qual, line, "deterministic value in %s" % attr,
+                                        "%s: a value stored in %s is a deterministic function of key and database (no os.urandom draw, no randomised encryption in %s): "
+                                        "encrypting the same database twice under the same key yields the same entry" % (s.name, attr, show(term, maxdepth=4)[:160]), witness=desc)
                         # no `random` module in stored material
                         root = _bytes_root(term)
                         if role == "value" or (role == "key" and _dictish(a)):
@@ -328,6 +441,15 @@ def check(repo):
     r1.require(n_sinks >= 30, schemes[0].method("_Enc"), "sinks floor", "only %d sinks analysed (expected >= 30)" % n_sinks)
     r1.instance({"sinks_analysed": n_sinks})
     _check_iv(repo, r3)
+    # ------------------------------------------------------------------ R4.6 randomness is drawn per entry
+    r6 = Rule("R4.6", "random material that ends up in entries is drawn inside the loop that produces them (one draw per entry)")
+    rules.append(r6)
+    n_prod = 0
+    for s in schemes:
+        fns = list(s.cls.methods.values()) + [f for f in s.cls.module.functions.values()]
+        for f in fns:
+            n_prod += _check_fresh_per_entry(r6, s, f)
+    r6.require(n_prod >= 20, schemes[0].method("_Enc"), "entry producers floor", "only %d entry-producing loops / comprehensions examined (expected >= 20)" % n_prod)
     # set-up keeps nothing on the scheme object: a memoised block would be handed out again, byte for byte, by the next set-up
     r5 = Rule("R4.5", "set-up and token generation keep no state: ciphertexts and tokens are never replayed from an earlier call")
     rules.append(r5)
@@ -346,6 +468,23 @@ def check(repo):
                            "under one key are no longer disjoint" % (s.name, mname, " / is memoised" if memo else ""))
             else:
                 r5.ok({"scheme": s.name, "method": mname})
+    # a mutable default argument is one object shared by every call that omits it: an index built into it is also every later index
+    seen_mods = set()
+    for s in schemes:
+        for m in {s.cls.module, s.edb_cls.module}:
+            if m.rel in seen_mods:
+                continue
+            seen_mods.add(m.rel)
+            for fi in m.all_functions():
+                a = fi.node.args
+                for d in list(a.defaults) + [x for x in a.kw_defaults if x is not None]:
+                    mutable = isinstance(d, (ast.Dict, ast.List, ast.Set)) or (
+                        isinstance(d, ast.Call) and dotted(d.func) in ("dict", "list", "set", "bytearray", "collections.defaultdict", "defaultdict", "collections.OrderedDict", "OrderedDict"))
+                    if mutable:
+                        r5.fail_fn(fi, d, "mutable default argument",
+                                   "%s has the mutable default %s: the one object created at definition time is shared by all calls that omit the argument, so what one "
+                                   "set-up stores in it shows up in (and is serialised with) every other encrypted database of the process" % (fi.qual, short(d)))
+            r5.ok({"module": m.rel, "rule": "no mutable default arguments"})
     return rules
 
 
